@@ -42,9 +42,9 @@ theorem exitCore_caught (logF) (cfg : Cfg) (d : Nat) (e : Exc) (g : G) (h : Caug
           match cfg.onerror with
           | none => (if cfg.reraise then .propagate else .suppress, { g2 with flag := false })
           | some f =>
-            match f e with
-            | some x' => (.raise x', ({ g2 with flag := false } : G).push (.onerror e))
-            | none => (if cfg.reraise then .propagate else .suppress, ({ g2 with flag := false } : G).push (.onerror e)) := by
+            match f e (({ g2 with flag := false } : G).push (.onerror e)) with
+            | (some x', g5) => (.raise x', g5)
+            | (none, g5) => (if cfg.reraise then .propagate else .suppress, g5) := by
   obtain ⟨hf, hm, hx⟩ := h
   have hany : Gen.exitTests.any (fires cfg (some e) g) = false := by
     simp [Gen.exitTests, fires, hf, hm, hx]
@@ -60,7 +60,9 @@ theorem exitCore_caught (logF) (cfg : Cfg) (d : Nat) (e : Exc) (g : G) (h : Caug
     | none => cases cfg.reraise <;> rfl
     | some f =>
       simp only
-      cases f e with
+      generalize f e (({ g2 with flag := false } : G).push (.onerror e)) = r5
+      obtain ⟨o5, g5⟩ := r5
+      cases o5 with
       | some x' => rfl
       | none => cases cfg.reraise <;> rfl
 
@@ -97,34 +99,45 @@ theorem probes_guarded (exitF : ExitF) (probes : List Probe) (g : G)
     · simp [G.push]
     · simpa [G.push] using hg
 
+/-- what `_log` adds to the trace: nothing below the handlers' least level (in particular with no handler
+    at all), else one record and, for every callable invoked meanwhile, ITS OWN outcome -/
+def logEvents (env : Env) (l d : Nat) (e : Exc) : List Event :=
+  if l < env.minLevel then [] else [.log l e d] ++ env.probes.map (fun p => .probe p.out)
+
+/-- the error `_log` raises, if any -/
+def logErr (env : Env) (l : Nat) (e : Exc) : Option Exc :=
+  if l < env.minLevel then none else env.logRaises e
+
 /-- `_log` while the guard flag is set: one record, every probe sees its own outcome, flag untouched -/
 theorem logCall_guarded (exitF : ExitF) (env : Env) (l d : Nat) (e : Exc) (g : G)
     (hnone : ∀ c d g, exitF c d none g = (.propagate, g))
     (hflag : ∀ c d e g, g.flag = true → exitF c d (some e) g = (.propagate, g))
     (hg : g.flag = true) :
     logCall exitF env l d e g =
-      (env.logRaises e, { g with trace := g.trace ++ [.log l e d] ++ env.probes.map (fun p => .probe p.out) }) := by
-  unfold logCall
-  simp only
-  rw [probes_guarded exitF env.probes _ hnone hflag (by simpa [G.push] using hg)]
-  simp [G.push]
+      (logErr env l e, { g with trace := g.trace ++ logEvents env l d e }) := by
+  unfold logCall logErr logEvents
+  by_cases hl : l < env.minLevel
+  · simp [hl]
+  · simp only [hl, if_false]
+    rw [probes_guarded exitF env.probes _ hnone hflag (by simpa [G.push] using hg)]
+    simp [G.push]
 
 /-- the world after a handled exception, up to the `onerror` call -/
 def afterLog (env : Env) (cfg : Cfg) (d : Nat) (e : Exc) (g : G) : G :=
-  { flag := false,
-    trace := g.trace ++ [.log cfg.level e d] ++ env.probes.map (fun p => .probe p.out) }
+  { flag := false, trace := g.trace ++ logEvents env cfg.level d e }
 
 /-- closed form of `__exit__` for a handled exception -/
 def caughtResult (env : Env) (cfg : Cfg) (d : Nat) (e : Exc) (g : G) : ExitRes × G :=
-  match env.logRaises e with
+  match logErr env cfg.level e with
   | some x => (.raise x, afterLog env cfg d e g)
   | none =>
     match cfg.onerror with
     | none => (if cfg.reraise then .propagate else .suppress, afterLog env cfg d e g)
     | some f =>
-      match f e with
-      | some x => (.raise x, (afterLog env cfg d e g).push (.onerror e))
-      | none => (if cfg.reraise then .propagate else .suppress, (afterLog env cfg d e g).push (.onerror e))
+      -- onerror receives a world whose guard flag is CLEAR (`afterLog … .flag = false`)
+      match f e ((afterLog env cfg d e g).push (.onerror e)) with
+      | (some x, g5) => (.raise x, g5)
+      | (none, g5) => (if cfg.reraise then .propagate else .suppress, g5)
 
 theorem exitN_caught (n : Nat) (env : Env) (cfg : Cfg) (d : Nat) (e : Exc) (g : G) (h : Caught cfg g e) :
     exitN n env cfg d (some e) g = caughtResult env cfg d e g := by
@@ -136,12 +149,12 @@ theorem exitN_caught (n : Nat) (env : Env) (cfg : Cfg) (d : Nat) (e : Exc) (g : 
     rw [exitCore_caught _ _ _ _ _ h]
     rw [logCall_guarded exitF env _ _ e _ hnone hflag rfl]
     unfold caughtResult afterLog
-    cases env.logRaises e with
-    | some x => simp
+    cases logErr env cfg.level e with
+    | some x => rfl
     | none =>
       cases cfg.onerror with
-      | none => simp
-      | some f => cases f e <;> simp
+      | none => rfl
+      | some f => rfl
   cases n with
   | zero => exact key _ (fun _ _ _ => rfl) (fun _ _ _ _ _ => rfl)
   | succ m =>
